@@ -1,6 +1,10 @@
 package main
 
-import "math/big"
+import (
+	"encoding/json"
+	"go/types"
+	"math/big"
+)
 
 func init() {
 	reg := func(name string, f intrinsic) { intrinsics[name] = f }
@@ -90,5 +94,85 @@ func init() {
 		ex.blobCnt++
 		ex.noteAssumption("encoding/json.Marshal is modelled as an injective opaque encoding of its argument")
 		return Tuple{Slice{Blob: &Blob{V: ex.freeze(iv.V, iv.T, 0), Typ: iv.T, Empty: ex.tf.False, ID: ex.blobCnt}}, Iface{}}
+	}
+}
+
+
+func init() {
+	// encoding/json.Unmarshal: the inverse of the injective Marshal model for blobs; concrete bytes that are not
+	// valid JSON give an error (decided with the real json.Valid); other concrete JSON texts are not modelled.
+	intrinsics["encoding/json.Unmarshal"] = func(ex *Exec, a []Value, fr *Frame) Value {
+		data := a[0].(Slice)
+		tv, ok := a[1].(Iface)
+		if !ok || tv.T == nil {
+			return ex.mkError(ex.strConst("json: Unmarshal(nil)"))
+		}
+		if data.Blob == nil || data.Blob.V == nil {
+			conc := true
+			var raw []byte
+			for _, b := range ex.sliceBytes(data) {
+				if !b.IsConst() {
+					conc = false
+					break
+				}
+				raw = append(raw, byte(b.C.Int64()))
+			}
+			if !conc {
+				panic(engineErr("json.Unmarshal of symbolic raw bytes"))
+			}
+			if !json.Valid(raw) {
+				return ex.mkError(ex.strConst("invalid character in JSON input"))
+			}
+			panic(engineErr("json.Unmarshal of a concrete JSON text (only Marshal blobs and invalid texts are modelled)"))
+		}
+		// source: strip pointers
+		sv, st := data.Blob.V, data.Blob.Typ
+		for {
+			pt, isPtr := st.Underlying().(*types.Pointer)
+			if !isPtr {
+				break
+			}
+			p := sv.(Ptr)
+			if p.O == nil {
+				return Iface{} // null: no effect
+			}
+			sv, st = ex.load(p), pt.Elem()
+		}
+		// target: follow (and allocate) pointers down to the value
+		tp, ok := tv.V.(Ptr)
+		if !ok || tp.O == nil {
+			return ex.mkError(ex.strConst("json: Unmarshal(non-pointer)"))
+		}
+		tt := tv.T.Underlying().(*types.Pointer).Elem()
+		for {
+			pt, isPtr := tt.Underlying().(*types.Pointer)
+			if !isPtr {
+				break
+			}
+			inner := ex.load(tp).(Ptr)
+			if inner.O == nil {
+				inner = Ptr{O: ex.newObj(ex.zero(pt.Elem()), pt.Elem())}
+				ex.store(tp, inner)
+			}
+			tp, tt = inner, pt.Elem()
+		}
+		if !types.Identical(st, tt) {
+			panic(engineErr("json.Unmarshal of a " + st.String() + " blob into " + tt.String()))
+		}
+		ex.store(tp, ex.freeze(sv, st, 0))
+		ex.noteAssumption("encoding/json.Unmarshal of a json.Marshal result restores the marshalled value (lossless for the exported, tagged integer/string fields used here)")
+		return Iface{}
+	}
+	intrinsics["math.Ceil"] = func(ex *Exec, a []Value, _ *Frame) Value {
+		x := a[0].(Float).T
+		if !x.IsConst() {
+			panic(engineErr("math.Ceil of a symbolic value"))
+		}
+		q := new(big.Int).Quo(x.R.Num(), x.R.Denom()) // truncation toward zero
+		if x.R.Sign() > 0 && new(big.Rat).SetInt(q).Cmp(x.R) != 0 {
+			q.Add(q, big.NewInt(1))
+		}
+		ex.noteAssumption("float64 arithmetic is exact rational arithmetic (operands below 2^53; math.Ceil of n/100 agrees with IEEE rounding there)")
+		return Float{ex.tf.Real(new(big.Rat).SetInt(q))}
 	}
 }
